@@ -106,6 +106,7 @@ struct Ep {
     binds: Vec<Option<BoxFut<penguin_mux::Result<bool>>>>,
     bindreqs: Vec<Option<BindRequest<'static>>>,
     pollables: Vec<Pollable>,
+    all_fids: Vec<u64>,
 }
 
 fn err_code(e: &penguin_mux::Error) -> Vec<u64> {
@@ -139,6 +140,13 @@ fn put_msg(o: &mut Vec<u64>, m: &Message) {
     }
 }
 
+/// the flow id of a stream, from its Debug output (the field is crate-private)
+fn flow_id_of(s: &MuxStream) -> u64 {
+    let d = format!("{s:?}");
+    let i = d.find("flow_id: ").map(|i| i + 9).unwrap_or(0);
+    u64::from_str_radix(d[i..].split(|c: char| !c.is_ascii_hexdigit()).next().unwrap_or("0"), 16).unwrap_or(0)
+}
+
 impl Ep {
     fn new(idx: u64, cfg: &Cfg) -> Self {
         let ws = Arc::new(Mutex::new(WsState::default()));
@@ -163,6 +171,7 @@ impl Ep {
             binds: Vec::new(),
             bindreqs: Vec::new(),
             pollables: Vec::new(),
+            all_fids: Vec::new(),
         }
     }
 
@@ -178,6 +187,7 @@ impl Ep {
     }
 
     fn add_stream(&mut self, s: MuxStream) -> usize {
+        self.all_fids.push(flow_id_of(&s));
         self.streams.push(Some(Box::pin(s)));
         self.streams.len() - 1
     }
@@ -361,6 +371,9 @@ impl World {
     pub fn task_alive(&self, e: usize) -> bool {
         self.eps[e].task.is_some()
     }
+    pub fn fids(&self, e: usize) -> &[u64] {
+        &self.eps[e].all_fids
+    }
     pub fn out_len(&self) -> usize {
         self.out.len()
     }
@@ -412,10 +425,12 @@ impl World {
                         let mut o = vec![0];
                         let host = s.dest_host.clone();
                         let port = s.dest_port;
+                        let fid = flow_id_of(&s);
                         let sid = ep.add_stream(s);
                         o.push(sid as u64);
                         o.push(u64::from(port));
                         put_lp(&mut o, &host);
+                        o.push(fid);
                         o
                     }
                     Poll::Ready(Err(er)) => [vec![2], err_code(&er)].concat(),
@@ -686,10 +701,12 @@ impl World {
                         let mut o = vec![0];
                         let host = s.dest_host.clone();
                         let port = s.dest_port;
+                        let fid = flow_id_of(&s);
                         let sid = ep.add_stream(s);
                         o.push(sid as u64);
                         o.push(u64::from(port));
                         put_lp(&mut o, &host);
+                        o.push(fid);
                         o
                     }
                     Err(er) => [vec![2], err_code(&er)].concat(),
